@@ -185,12 +185,12 @@ Section Rules.
         constraint on schema node s in context f. An absent non-presence container passes the context on to its
         children (with no data). *)
   Section Req.
-    Variable Pn : forest -> sid -> bool.            (* constraint on a data schema node, when enforced *)
+    Variable Pn : forest -> sid -> list stree -> bool.   (* constraint on a data schema node (with its schema children), when enforced *)
     Variable Pc : forest -> bool -> list stree -> bool.   (* constraint on a choice (mandatory flag, cases), when enforced *)
     Fixpoint req (f : forest) (eff : bool) (t : stree) : bool :=
       match t with
       | TNode s ch =>
-          (negb eff || Pn f s) &&
+          (negb eff || Pn f s ch) &&
           (match kind vs s with
            | KCont false => has_sid f s || negb eff || forallb (req [] true) ch
            | _ => true
@@ -202,7 +202,7 @@ Section Rules.
   End Req.
 
   (* ---- 7.6.5 (leaf), 7.10 (anydata): mandatory node ---------------------------------------- *)
-  Definition mand_node (f : forest) (s : sid) : bool :=
+  Definition mand_node (f : forest) (s : sid) (_ : list stree) : bool :=
     match kind vs s with
     | KLeaf | KAny => negb (si_mand (info vs s)) || has_sid f s
     | _ => true
@@ -213,10 +213,10 @@ Section Rules.
   (* ---- 7.9.4: mandatory choice (error-app-tag missing-choice) ------------------------------- *)
   Definition mand_choice (f : forest) (m : bool) (cs : list stree) : bool := negb m || existsb (sub_has_data f) cs.
   Definition rfc_mand_choice (f : forest) : bool :=
-    all_ctx (req_ctx (fun _ _ => true) mand_choice) (vs_tree vs) f.
+    all_ctx (req_ctx (fun _ _ _ => true) mand_choice) (vs_tree vs) f.
 
   (* ---- 7.7.5: min-elements (too-few-elements) ----------------------------------------------- *)
-  Definition min_node (f : forest) (s : sid) : bool :=
+  Definition min_node (f : forest) (s : sid) (_ : list stree) : bool :=
     match kind vs s with
     | KList | KLeafList => si_min (info vs s) <=? count f s
     | _ => true
@@ -284,12 +284,20 @@ Section Rules.
   Definition uniques_of (s : sid) : list (list (list sid)) :=
     match find (fun e => fst e =? s) (vs_uniq vs) with Some e => snd e | None => [] end.
 
-  Definition unique_node (l : list stree) (f : forest) (s : sid) : bool :=
+  (* the entries of list s (schema children ls) among the siblings f are pairwise different on every unique statement *)
+  Definition unique_node (ls : list stree) (f : forest) (s : sid) : bool :=
     match kind vs s with
-    | KList => pairwise (fun a b => negb (existsb (fun u => uq_conflict (st_children l s) u a b) (uniques_of s))) (insts f s)
+    | KList => pairwise (fun a b => negb (existsb (fun u => uq_conflict ls u a b) (uniques_of s))) (insts f s)
     | _ => true
     end.
-  Definition unique_ctx (l : list stree) (f : forest) : bool := forallb (unique_node l f) (flat_map st_sids l).
+  (* every list of the sibling level, through choices and cases *)
+  Fixpoint unique_t (f : forest) (t : stree) : bool :=
+    match t with
+    | TNode s ch => unique_node ch f s
+    | TChoice _ _ cs => forallb (unique_t f) cs
+    | TCase _ _ ch => forallb (unique_t f) ch
+    end.
+  Definition unique_ctx (l : list stree) (f : forest) : bool := forallb (unique_t f) l.
   Definition rfc_unique (f : forest) : bool := all_ctx unique_ctx (vs_tree vs) f.
 
   (* ---- 7.5.1: a non-presence container has no meaning of its own; its presence with no child nodes is semantically
@@ -389,37 +397,19 @@ Fixpoint upath_ok (vs : vschema) (p : list sid) : bool :=
 Definition uniq_ok (vs : vschema) : bool :=
   forallb (fun e : sid * list (list (list sid)) => forallb (forallb (upath_ok vs)) (snd e)) (vs_uniq vs).
 
-Definition vschema_ok (vs : vschema) : bool :=
-  forallb (shape false) (vs_tree vs) && forallb (dflt_ok vs) (vs_tree vs) && keys_ok vs && uniq_ok vs.
-
-(* no unique statement names a leaf with a default value that can be out of use: the leaf and the containers on the way
-   are not inside a choice and the containers are non-presence containers (outside of this libyang departs from 7.8.3:
-   ValidP.unique_default_refuted) *)
-Definition plain_in (s : sid) (t : stree) : option bool :=
-  match t with
-  | TNode s' _ => if s' =? s then Some true else None
-  | _ => if existsb (N.eqb s) (st_sids t) then Some false else None
-  end.
-Definition plain (l : list stree) (s : sid) : bool :=
-  match first_some (plain_in s) l with Some b => b | None => false end.
-
-Fixpoint path_plain (vs : vschema) (l : list stree) (p : list sid) {struct p} : bool :=
+(* the steps of a unique path are schema nodes of the level they are looked up in *)
+Fixpoint upath_in (l : list stree) (p : list sid) {struct p} : bool :=
   match p with
   | [] => true
-  | s :: p' =>
-      match p' with
-      | [] => plain l s
-      | _ => plain l s && match kind vs s with KCont false => true | _ => false end && path_plain vs (st_children l s) p'
-      end
+  | s :: p' => existsb (N.eqb s) (flat_map st_sids l) && upath_in (st_children l s) p'
+  end.
+Fixpoint uniq_placed_t (vs : vschema) (t : stree) : bool :=
+  match t with
+  | TNode s ch => forallb (forallb (upath_in ch)) (uniques_of vs s) && forallb (uniq_placed_t vs) ch
+  | TChoice _ _ cs => forallb (uniq_placed_t vs) cs
+  | TCase _ _ ch => forallb (uniq_placed_t vs) ch
   end.
 
-Fixpoint uniq_plain_t (vs : vschema) (t : stree) : bool :=
-  match t with
-  | TNode s ch =>
-      forallb (forallb (fun p => match si_dflts (info vs (last p 0)) with [] => true | _ => path_plain vs ch p end))
-              (uniques_of vs s) &&
-      forallb (uniq_plain_t vs) ch
-  | TChoice _ _ cs => forallb (uniq_plain_t vs) cs
-  | TCase _ _ ch => forallb (uniq_plain_t vs) ch
-  end.
-Definition uniq_plain (vs : vschema) : bool := forallb (uniq_plain_t vs) (vs_tree vs).
+Definition vschema_ok (vs : vschema) : bool :=
+  forallb (shape false) (vs_tree vs) && forallb (dflt_ok vs) (vs_tree vs) && keys_ok vs && uniq_ok vs &&
+  forallb (uniq_placed_t vs) (vs_tree vs).
